@@ -1619,6 +1619,7 @@ var shapeTargets = []shapeTarget{
 	{"internal/app", "runTransfer", "SnapshotSender", "assign:current", "admission_slot_identity"},
 	{"internal/app", "handlePeerLeft", "SnapshotSender", "if-all", "admission_left"},
 	{"internal/peers", "Add", "Hub", "if-all", "hub_add_and_remove"},
+	{"internal/peers", "Add", "Hub", "go-bodies", "hub_writer"},
 	{"internal/peers", "SendTo", "Hub", "if-all", "hub_sendto"},
 	{"internal/peers", "BroadcastExcept", "Hub", "if-all", "hub_bcast_except"},
 	{"internal/peers", "CloseSession", "Hub", "if-all", "hub_close_session"},
@@ -1717,6 +1718,24 @@ func (w *world) shapesIn(body *ast.BlockStmt, sel string) []string {
 			printer.Fprint(&buf, w.fset, st)
 			res = append(res, strings.Join(strings.Fields(buf.String()), " "))
 		}
+		return res
+	}
+	if sel == "go-bodies" {
+		// the body of every function literal started with `go` directly in this function (not inside nested literals), one line each
+		ast.Inspect(body, func(n ast.Node) bool {
+			if gs, ok := n.(*ast.GoStmt); ok {
+				if fl, ok := gs.Call.Fun.(*ast.FuncLit); ok {
+					var buf bytes.Buffer
+					printer.Fprint(&buf, w.fset, fl.Body)
+					res = append(res, strings.Join(strings.Fields(buf.String()), " "))
+				}
+				return false
+			}
+			if _, ok := n.(*ast.FuncLit); ok {
+				return false
+			}
+			return true
+		})
 		return res
 	}
 	if strings.HasPrefix(sel, "closure-head:") {
